@@ -9,6 +9,7 @@
    [hint] (observed reply, acceptor form) and echoes it must test [reply_wf hint] in the model,
    otherwise its lemma is not provable. *)
 Require Import Base.Bytes Base.GoInt Base.Reply Mem.Types Mem.Strings Mem.Lists Mem.Exec Mem.Server.
+Require Mem.StringsProofs.
 (* the other families: each owner proves <family>_dispatch_reply_wf unconditionally *)
 Require Mem.HashesProofs Mem.SetsProofs Mem.ZSetsProofs Mem.StreamsProofs.
 Local Open Scope Z_scope.
@@ -144,18 +145,8 @@ Proof. intros ->. exact (fun H => H). Qed.
 
 Lemma strings_dispatch_wf : family_wf strings_dispatch.
 Proof.
-  intros d now nowms n args hint r d' H. unfold strings_dispatch in H.
-  repeat match type of H with
-         | (if ?c then _ else _) = Some _ => destruct c
-         end;
-    try discriminate H;
-    (injection H as H; eapply wf_of_fst; [exact H|]);
-    first [ apply exec_set_wf | apply exec_get_wf | apply exec_getrange_wf | apply exec_setrange_wf
-          | apply exec_mget_wf | apply exec_mset_wf | apply exec_setex_wf | apply exec_setnx_wf
-          | apply exec_strlen_wf | apply exec_incr_wf | apply exec_decr_wf | apply exec_incrby_wf
-          | apply exec_decrby_wf | apply exec_append_wf | apply exec_del_wf | apply exec_exists_wf
-          | apply exec_keys_wf | apply exec_expire_wf | apply exec_persist_wf | apply exec_ttl_wf
-          | apply exec_type_wf | apply exec_rename_wf | apply exec_ping_wf ].
+  intros d now nowms n args hint r d' H.
+  exact (StringsProofs.strings_dispatch_reply_wf d now nowms n args hint r d' H).
 Qed.
 
 (* ---------------------------------------------------------------- lists *)
